@@ -485,17 +485,14 @@ deriving Repr, DecidableEq, Inhabited
 def allocExh (limit : Int) : List FLR → Int → List Int → List Int → List Bool → Exh → Except Err Exh
   | [], score, _, _, curr, best =>
     .ok (if score > best.bestScore then { bestScore := score, evicted := curr } else best)
-  | lr :: rest, score, baseU, maxU, curr, best => do
-    let bmax ← sliceMax baseU lr.start (lr.end_ + 1)
-    let best1 ←
-      if bmax + lr.size ≤ limit then do
-        let baseU' ← keepUsage baseU lr
-        allocExh limit rest (score + lr.score) baseU' maxU (curr ++ [false]) best
-      else .ok best
-    let mmax ← sliceMax maxU lr.start (lr.end_ + 1)
-    if !(mmax ≤ limit) then do
-      let maxU' ← evictUsage maxU lr
-      allocExh limit rest score baseU maxU' (curr ++ [true]) best1
+  | lr :: rest, score, baseU, maxU, curr, best =>
+    sliceMax baseU lr.start (lr.end_ + 1) >>= fun bmax =>
+    (if bmax + lr.size ≤ limit then
+      keepUsage baseU lr >>= fun baseU' => allocExh limit rest (score + lr.score) baseU' maxU (curr ++ [false]) best
+     else .ok best) >>= fun best1 =>
+    sliceMax maxU lr.start (lr.end_ + 1) >>= fun mmax =>
+    if !(mmax ≤ limit) then
+      evictUsage maxU lr >>= fun maxU' => allocExh limit rest score baseU maxU' (curr ++ [true]) best1
     else .ok best1
 
 /-- the mutable state shared by `use_fast_storage_for_feature_maps` and the component allocator -/
